@@ -693,7 +693,7 @@ impl<'a> Model<'a> {
             // ------------------|****|------------------- Case D
             // ---------------------|**********|---------- Case E
             // -----------------------------|*****|------- Case F
-            if column_start < min {
+            if column_start <= min {
                 if column_end < min {
                     // Case A
                     // We displace all columns
